@@ -322,6 +322,9 @@ func (s *state) oracle(h *rt.H, pre, post map[string]snap, blocks []netip.Prefix
 	}
 	// (4') every allocatable pool carries the finalizer after a reconcile
 	for n, q := range post {
+		if q.t && !q.deleting && !q.fin && q.valid && (s.failFin[n] || s.failStatus[n]) {
+			h.Count("obs:true-without-finalizer") // the documented transient limit under write failures (finalizer_write_failure_witness)
+		}
 		if q.t && !q.deleting && !q.fin && q.valid && !s.failFin[n] && !s.failStatus[n] { // demanded only when this pool's writes went through
 			h.OracleFail("allocatable-without-finalizer", fmt.Sprintf("pool %s is Allocatable=True but has no finalizer after reconcile", n), in)
 		}
